@@ -26,6 +26,7 @@ func init() {
 // siblingExceptions: method|feature -> reason. Confirmed by reading both implementations.
 var siblingExceptions = map[string]string{
 	"repo.IndexGet|sentinels":          "dir=ErrNotFound mem= — only the directory store loads the index from disk on demand and can find that the repository does not exist",
+	"repo.BlobCreate|validates-digest": "dir=true mem=false — as for blobCreate, when the exported method contains the implementation",
 	"repo.blobCreate|validates-digest": "dir=true mem=false — only the directory store turns the announced digest into a file name before any content exists; the memory store uses it as a map key",
 	"store.Close|read-only-guard":      "dir=true mem=false — only the directory store's session cleanup removes files, which a read-only store must not do",
 	"store.RepoGet|sentinels":          "dir=ErrRepoNotAllowed mem= — only the directory store reserves the names of its layout files as path components",
